@@ -254,20 +254,41 @@ class ReplayResult:
 
 
 def run_replay(cases_path, name="replay", jobs=1, timeout=3600):
-    """Execute the cases against the real code (harness binary `replay`)."""
+    """Execute the cases against the real code (harness binary `replay`).  A crash that is
+    not a Rust panic (abort, segfault) is attributed to the in-flight case through the
+    progress file, and the run resumes with the next case."""
     wdir = os.path.join(WORK, "replay", name)
     shutil.rmtree(wdir, ignore_errors=True)
     os.makedirs(wdir)
-    res_path = os.path.join(wdir, "results.jsonl")
-    prog = os.path.join(wdir, "progress")
-    t0 = time.time()
-    r = sh([os.path.join(BIN, "replay"), cases_path, res_path, prog], stdout=subprocess.PIPE,
-           stderr=subprocess.PIPE, timeout=timeout)
     out = ReplayResult()
-    if r.returncode == 2:
-        raise ToolError("harness error: " + r.stderr.decode(errors="replace")[-2000:])
-    if r.returncode != 0:
-        # crash that is not a Rust panic (abort, segfault): attribute it to the in-flight case
+    out.crashes = []
+    t0 = time.time()
+    start = 0
+    summaries = []
+    rounds = 0
+    while True:
+        rounds += 1
+        res_path = os.path.join(wdir, "results-%d.jsonl" % rounds)
+        prog = os.path.join(wdir, "progress")
+        r = sh([os.path.join(BIN, "replay"), cases_path, res_path, prog, str(start)], stdout=subprocess.PIPE,
+               stderr=subprocess.PIPE, timeout=timeout)
+        if r.returncode == 2:
+            raise ToolError("harness error: " + r.stderr.decode(errors="replace")[-2000:])
+        if os.path.exists(res_path):
+            with open(res_path) as fh:
+                for line in fh:
+                    if not line.strip():
+                        continue
+                    try:
+                        o = json.loads(line)
+                    except ValueError:
+                        continue      # line cut by the crash
+                    if "summary" in o:
+                        summaries.append(o["summary"])
+                    else:
+                        out.fails.append(o)
+        if r.returncode == 0:
+            break
         idx = -1
         try:
             idx = int(open(prog).read().strip())
@@ -280,21 +301,26 @@ def run_replay(cases_path, name="replay", jobs=1, timeout=3600):
                     if i == idx:
                         case = json.loads(line)
                         break
-        out.crashed = {"i": idx, "case": case, "exit": r.returncode,
-                       "stderr": r.stderr.decode(errors="replace")[-1500:]}
-    if os.path.exists(res_path):
-        with open(res_path) as fh:
-            for line in fh:
-                if not line.strip():
-                    continue
-                o = json.loads(line)
-                if "summary" in o:
-                    out.summary = o["summary"]
-                else:
-                    out.fails.append(o)
+        crash = {"i": idx, "case": case, "exit": r.returncode, "stderr": r.stderr.decode(errors="replace")[-600:]}
+        out.crashes.append(crash)
+        out.crashed = crash
+        if idx < 0 or rounds > 200:
+            break
+        start = idx + 1
+    # merge summaries
+    merged = {"checks": 0, "failed_cases": 0, "kinds": {}}
+    for s in summaries:
+        merged["checks"] += s.get("checks", 0)
+        merged["failed_cases"] += s.get("failed_cases", 0)
+        for k, v in s.get("kinds", {}).items():
+            m = merged["kinds"].setdefault(k, {"cases": 0, "checks": 0, "failed_cases": 0})
+            for kk in m:
+                m[kk] += v.get(kk, 0)
+    out.summary = merged
     out.wall = time.time() - t0
     log("replay %-26s %9d checks  %6d failing cases  %.1fs%s" % (
-        name, out.summary.get("checks", 0), len(out.fails), out.wall, "  CRASHED" if out.crashed else ""))
+        name, out.summary.get("checks", 0), len(out.fails), out.wall,
+        "  %d CRASH(ES)" % len(out.crashes) if out.crashes else ""))
     return out
 
 
@@ -363,6 +389,8 @@ class Check:
         self.exhaustive = True
         self.extra = {}
         self.classifiers = []     # [(finding dict, predicate)]
+        self.crash_props = None   # properties a process abort is charged to (None = this one)
+        self.group_key = None     # behaviours that fork: fail only if every branch of a group fails
 
     # ---- model results
     def add_tlc(self, r, note=None):
@@ -394,7 +422,7 @@ class Check:
             pass
 
     # ---- replay results: keep only failures charged to this property
-    def add_replay(self, rr, label):
+    def add_replay(self, rr, label, cases_path=None):
         s = rr.summary
         n_cases = sum(k.get("cases", 0) for k in s.get("kinds", {}).values())
         self.traces += n_cases
@@ -402,14 +430,46 @@ class Check:
         self.extra.setdefault("replays", []).append(
             {"label": label, "cases": n_cases, "comparisons": s.get("checks", 0),
              "failing_cases_all_properties": len(rr.fails)})
-        if rr.crashed:
-            self.violations.append({"what": "harness process died (not a Rust panic) while executing a case",
-                                    "case": rr.crashed})
+        for cr in getattr(rr, "crashes", []):
+            fail = {"props": [self.pid], "what": "process_abort",
+                    "panic": "the process died (not an unwinding Rust panic) while executing this case: " + cr.get("stderr", "")[-300:]}
+            if self.crash_props is None or self.pid in self.crash_props:
+                self.judge(cr.get("case") or {"k": "?"}, [fail])
+        mine_recs = []
         for rec in rr.fails:
             mine = [f for f in rec["fails"] if self.pid in f.get("props", [])]
-            if not mine:
-                continue
-            self.judge(rec["case"], mine)
+            if mine:
+                mine_recs.append((rec["case"], mine))
+        if self.group_key is not None and cases_path is not None:
+            mine_recs = self.collapse_branches(cases_path, mine_recs)
+        for case, mine in mine_recs:
+            self.judge(case, mine)
+
+    def collapse_branches(self, cases_path, recs):
+        """Behaviours whose abstract value forks are printed once per branch; the implementation
+        follows one of them.  A group (same inputs and calls) fails only if all its branches fail;
+        then the branch that got furthest is reported."""
+        total = {}
+        with open(cases_path) as fh:
+            for line in fh:
+                c = json.loads(line)
+                k = self.group_key(c)
+                if k is not None:
+                    total[k] = total.get(k, 0) + 1
+        failing = {}
+        out = []
+        for case, mine in recs:
+            k = self.group_key(case)
+            if k is None:
+                out.append((case, mine))
+            else:
+                failing.setdefault(k, []).append((case, mine))
+        for k, lst in failing.items():
+            if len(lst) >= total.get(k, 0):
+                # every branch failed: report the one with the fewest failed comparisons
+                lst.sort(key=lambda cm: len(cm[1]))
+                out.append(lst[0])
+        return out
 
     def judge(self, case, fails):
         """Split the failed comparisons of one case into known findings and violations."""
